@@ -101,6 +101,10 @@ def r11_2(ctx):
         reg = region_of(rc)
         # snapshot argument is the thread's buffer
         arg = rc.args[0] if rc.args else None
+        if isinstance(arg, ast.Name):
+            ds = [x.value for x in walk_local(f.node) if isinstance(x, ast.Assign) and len(x.targets) == 1 and norm(x.targets[0]) == arg.id]
+            if len(ds) == 1:
+                arg = ds[0]
         ctx.check(arg is not None and "self._buffer" in norm(arg), f.fq, short(rc), f"{mod.relpath}:{rc.lineno}",
                   "renders the calling thread's own buffer", f"renders `{norm(arg) if arg is not None else None}`, not the thread's buffer")
         target = st.targets[0].id if isinstance(st, ast.Assign) and isinstance(st.targets[0], ast.Name) else None
@@ -312,7 +316,49 @@ def r11_6(ctx):
     ctx.floor(n, 3, "thread join sites")
 
 
-RULES = [r11_1, r11_2, r11_3, r11_4, r11_5, r11_6]
+def r11_7(ctx):
+    ctx.rule("R11.7", "test-and-set atomicity: in the classes that own a lock, a state flag that a method writes under that lock is also tested under it in the same lock region - a check outside the region followed by a set inside it lets two threads both pass the check (e.g. two concurrent start() calls both push the render hook)")
+    cg, locks = get_cg(ctx)
+    n = 0
+    for cname, lock in (("Live", LIVE_LOCK), ("Progress", ("Progress", "_lock"))):
+        c = ctx.repo.cls(("live:" if cname == "Live" else "progress:") + cname)
+        for name, lst in c.methods.items():
+            for f in lst:
+                if name == "__init__":
+                    continue
+                stores = {}
+                for x in walk_local(f.node):
+                    if isinstance(x, ast.Assign):
+                        for t in x.targets:
+                            if is_attr_of(t, "self") and lock in must_held(ctx, f, x):
+                                stores.setdefault(t.attr, []).append(x)
+                if not stores:
+                    continue
+                withs = [w for w, ls, _h in locks.lock_withs(f) if lock in ls]
+
+                def region(node):
+                    cur = f.module.parent_of.get(node)
+                    while cur is not None and cur is not f.node:
+                        if cur in withs:
+                            return cur
+                        cur = f.module.parent_of.get(cur)
+                    return None
+
+                for x in walk_local(f.node):
+                    if isinstance(x, ast.If):
+                        for a in ast.walk(x.test):
+                            if is_attr_of(a, "self") and a.attr in stores and isinstance(a.ctx, ast.Load):
+                                later = [st for st in stores[a.attr] if st.lineno > x.lineno]
+                                if not later:
+                                    continue
+                                n += 1
+                                ok = lock in must_held(ctx, f, x.test) and all(region(st) is region(x) or region(x) is None and lock in locks.must_held_on_entry().get(f.fq, frozenset()) for st in later)
+                                ctx.check(ok, f.fq, f"if {norm(x.test)} ... {short(later[0])}", f"{f.module.relpath}:{x.lineno}", f"self.{a.attr} tested and set inside one {lock[0]}.{lock[1]} region",
+                                          f"`self.{a.attr}` is tested at line {x.lineno} outside the {lock[0]}.{lock[1]} region in which it is set at line {later[0].lineno}: two threads can both pass the test before either sets the flag, so the guarded action (e.g. pushing the render hook, starting the refresh thread) happens twice")
+    ctx.floor(n, 3, "test-and-set sites")
+
+
+RULES = [r11_1, r11_2, r11_3, r11_4, r11_5, r11_6, r11_7]
 
 
 def _xcheck(ctx):
